@@ -11,36 +11,40 @@ package ecs
 // every component of its archetype. They are preconditions here (assumed at this boundary: the
 // functions that build archetypes and tables are not under contract yet).
 
-//@ pred archShape(a *archetype) :=
-//@      a.archetypeData != nil && len(a.componentsMap) == maskTotalBits
-//@   && len(a.relationTables) == len(a.isRelation)
-//@   && tidsInv(&a.tables)
-//@   && (a.numRelations == 0 ==> len(a.tables.tables) >= 1)
-//@   && (forall c uint8 :: mhas(a.mask, c) ==> 0 <= a.componentsMap[c] && int(a.componentsMap[c]) < len(a.relationTables))
-//@   && (forall i int, e entityID :: 0 <= i && i < len(a.relationTables) && __has(a.relationTables[i], e) ==> a.relationTables[i][e] != nil)
-
-// every table listed by archetype number i of the storage exists and belongs to it
-//@ pred archOwns(s *storage, i int) :=
-//@      (forall p int :: 0 <= p && p < len(s.archetypes[i].tables.tables) ==>
-//@         int(s.archetypes[i].tables.tables[p]) < len(s.tables) && int(s.tables[s.archetypes[i].tables.tables[p]].archetype) == i)
-//@   && (forall c int, e entityID, p int :: 0 <= c && c < len(s.archetypes[i].relationTables) && __has(s.archetypes[i].relationTables[c], e)
-//@         && 0 <= p && p < len(s.archetypes[i].relationTables[c][e].tables) ==>
-//@         int(s.archetypes[i].relationTables[c][e].tables[p]) < len(s.tables) && int(s.tables[s.archetypes[i].relationTables[c][e].tables[p]].archetype) == i)
-
-//@ pred tableShape(s *storage, t *table) :=
-//@      len(t.components) == maskTotalBits && int(t.archetype) < len(s.archetypes)
-//@   && (forall c uint8 :: mhas(s.archetypes[t.archetype].mask, c) ==> t.components[c] != nil)
+// tidsArch: the archetype (index in storage.archetypes) whose index structures a tableIDs object
+// belongs to; a specification-only witness for "every table list of archetype i lists tables
+// that exist and belong to archetype i".
+//@ ghost func tidsArch(t *tableIDs) *int
 
 //@ pred storageShape(s *storage) :=
 //@      uint64(len(s.tables)) < 1<<32 && uint64(len(s.archetypes)) < 1<<32
-//@   && (forall i int :: 0 <= i && i < len(s.archetypes) ==> archShape(&s.archetypes[i]) && archOwns(s, i))
-//@   && (forall t int :: 0 <= t && t < len(s.tables) ==> tableShape(s, &s.tables[t]))
+//@   && (forall i int :: __trigger(s.archetypes[i].numRelations) && __trigger(s.archetypes[i].tables.tables) && __trigger(s.archetypes[i].componentsMap) && (0 <= i && i < len(s.archetypes) ==>
+//@         s.archetypes[i].archetypeData != nil && len(s.archetypes[i].componentsMap) == maskTotalBits
+//@         && len(s.archetypes[i].relationTables) == len(s.archetypes[i].isRelation)
+//@         && (s.archetypes[i].numRelations == 0 ==> len(s.archetypes[i].tables.tables) >= 1)
+//@         && *tidsArch(&s.archetypes[i].tables) == i))
+//@   && (forall i int, c uint8 :: __trigger(s.archetypes[i].componentsMap[c]) && (0 <= i && i < len(s.archetypes) && mhas(s.archetypes[i].mask, c) ==>
+//@         0 <= s.archetypes[i].componentsMap[c] && int(s.archetypes[i].componentsMap[c]) < len(s.archetypes[i].relationTables)))
+//@   && (forall i int, c int, e entityID :: __trigger(__get(s.archetypes[i].relationTables[c], e)) && (0 <= i && i < len(s.archetypes) && 0 <= c && c < len(s.archetypes[i].relationTables) && __has(s.archetypes[i].relationTables[c], e) ==>
+//@         __get(s.archetypes[i].relationTables[c], e) != nil && *tidsArch(__get(s.archetypes[i].relationTables[c], e)) == i))
+//@   && (forall t *tableIDs, p int :: __trigger(t.tables[p]) && (t != nil && 0 <= *tidsArch(t) && *tidsArch(t) < len(s.archetypes) && 0 <= p && p < len(t.tables) ==>
+//@         int(t.tables[p]) < len(s.tables) && int(s.tables[t.tables[p]].archetype) == *tidsArch(t)))
+//@   && (forall t int :: __trigger(s.tables[t].archetype) && __trigger(s.tables[t].components) && (0 <= t && t < len(s.tables) ==>
+//@         len(s.tables[t].components) == maskTotalBits && int(s.tables[t].archetype) < len(s.archetypes)))
+//@   && (forall t int, c uint8 :: __trigger(s.tables[t].components[c]) && (0 <= t && t < len(s.tables) && mhas(s.archetypes[s.tables[t].archetype].mask, c) ==> s.tables[t].components[c] != nil))
 
 // the relation components named by the relations of a filter are required by the filter
 //@ spec func relsInFilter(f *filter, relations []relationID) bool :=
 //@   forall k int :: 0 <= k && k < len(relations) ==> mhas(f.mask, relations[k].component.id)
 
 //@ spec func inSlice(xs []tableID, x tableID) bool := exists k int :: 0 <= k && k < len(xs) && xs[k] == x
+
+// what archetype.GetTables(relations) lists, as a membership predicate
+//@ spec func relMapOf(a *archetype, relations []relationID) map[entityID]*tableIDs :=
+//@   a.relationTables[a.componentsMap[relations[0].component.id]]
+//@ spec func inGetTables(a *archetype, relations []relationID, t tableID) bool :=
+//@      ((a.numRelations == 0 || len(relations) == 0) && inSlice(a.tables.tables, t))
+//@   || (a.numRelations > 0 && len(relations) > 0 && __has(relMapOf(a, relations), relations[0].target.id) && inSlice(__get(relMapOf(a, relations), relations[0].target.id).tables, t))
 
 //@ func (*archetype).GetTables
 //@   serves C03 C05 C06
@@ -53,14 +57,19 @@ package ecs
 //@ func (*storage).getCacheTables
 //@   serves C05 C03
 //@   requires storageShape(s) && filter != nil && relsInFilter(filter, relations)
-//@   loop 1 invariant norel: forall a int :: 0 <= a && a < __idx && filterMatches(*filter, s.archetypes[a].mask) && s.archetypes[a].numRelations == 0 ==> inSlice(tables, s.archetypes[a].tables.tables[0])
-//@   loop 1 invariant rel: forall a int, p int :: 0 <= a && a < __idx && filterMatches(*filter, s.archetypes[a].mask) && s.archetypes[a].numRelations > 0 && 0 <= p && p < len(s.archetypes[a].GetTables(relations)) && tableMatchesSpec(&s.tables[s.archetypes[a].GetTables(relations)[p]], relations) ==> inSlice(tables, s.archetypes[a].GetTables(relations)[p])
-//@   loop 1 invariant sound: forall k int :: 0 <= k && k < len(tables) ==> int(tables[k]) < len(s.tables) && filterMatches(*filter, s.archetypes[s.tables[tables[k]].archetype].mask) && tableMatchesSpec(&s.tables[tables[k]], relations)
-//@   loop 2 invariant norel: forall a int :: 0 <= a && a < i && filterMatches(*filter, s.archetypes[a].mask) && s.archetypes[a].numRelations == 0 ==> inSlice(tables, s.archetypes[a].tables.tables[0])
-//@   loop 2 invariant rel: forall a int, p int :: 0 <= a && a < i && filterMatches(*filter, s.archetypes[a].mask) && s.archetypes[a].numRelations > 0 && 0 <= p && p < len(s.archetypes[a].GetTables(relations)) && tableMatchesSpec(&s.tables[s.archetypes[a].GetTables(relations)[p]], relations) ==> inSlice(tables, s.archetypes[a].GetTables(relations)[p])
-//@   loop 2 invariant sound: forall k int :: 0 <= k && k < len(tables) ==> int(tables[k]) < len(s.tables) && filterMatches(*filter, s.archetypes[s.tables[tables[k]].archetype].mask) && tableMatchesSpec(&s.tables[tables[k]], relations)
+//@   assert   Matches comps: forall k int :: 0 <= k && k < len(relations) ==> mhas(s.archetypes[s.tables[tab].archetype].mask, relations[k].component.id)
+//@   loop 1 invariant fresh: __fresh(tables)
+//@   loop 1 invariant frame: forall q *tableID :: __trigger(*q) && (!__fresh(q) ==> *q == old(*q))
+//@   loop 1 invariant norel: forall a int :: 0 <= a && a < __idx && filterMatchesW(*filter, s.archetypes[a].mask) && s.archetypes[a].numRelations == 0 ==> inSlice(tables, s.archetypes[a].tables.tables[0])
+//@   loop 1 invariant rel: forall a int, t tableID :: 0 <= a && a < __idx && filterMatchesW(*filter, s.archetypes[a].mask) && s.archetypes[a].numRelations > 0 && inGetTables(&s.archetypes[a], relations, t) && tableMatchesSpec(&s.tables[t], relations) ==> inSlice(tables, t)
+//@   loop 1 invariant sound: forall k int :: 0 <= k && k < len(tables) ==> int(tables[k]) < len(s.tables) && filterMatchesW(*filter, s.archetypes[s.tables[tables[k]].archetype].mask) && tableMatchesSpec(&s.tables[tables[k]], relations)
+//@   loop 2 invariant fresh: __fresh(tables)
+//@   loop 2 invariant frame: forall q *tableID :: __trigger(*q) && (!__fresh(q) ==> *q == old(*q))
+//@   loop 2 invariant norel: forall a int :: 0 <= a && a < i && filterMatchesW(*filter, s.archetypes[a].mask) && s.archetypes[a].numRelations == 0 ==> inSlice(tables, s.archetypes[a].tables.tables[0])
+//@   loop 2 invariant rel: forall a int, t tableID :: 0 <= a && a < i && filterMatchesW(*filter, s.archetypes[a].mask) && s.archetypes[a].numRelations > 0 && inGetTables(&s.archetypes[a], relations, t) && tableMatchesSpec(&s.tables[t], relations) ==> inSlice(tables, t)
+//@   loop 2 invariant sound: forall k int :: 0 <= k && k < len(tables) ==> int(tables[k]) < len(s.tables) && filterMatchesW(*filter, s.archetypes[s.tables[tables[k]].archetype].mask) && tableMatchesSpec(&s.tables[tables[k]], relations)
 //@   loop 2 invariant cur: forall p int :: 0 <= p && p < __idx && tableMatchesSpec(&s.tables[tableIDs[p]], relations) ==> inSlice(tables, tableIDs[p])
-//@   ensures  norel: forall a int :: 0 <= a && a < len(s.archetypes) && filterMatches(*filter, s.archetypes[a].mask) && s.archetypes[a].numRelations == 0 ==> inSlice(result, s.archetypes[a].tables.tables[0])
-//@   ensures  rel: forall a int, p int :: 0 <= a && a < len(s.archetypes) && filterMatches(*filter, s.archetypes[a].mask) && s.archetypes[a].numRelations > 0 && 0 <= p && p < len(s.archetypes[a].GetTables(relations)) && tableMatchesSpec(&s.tables[s.archetypes[a].GetTables(relations)[p]], relations) ==> inSlice(result, s.archetypes[a].GetTables(relations)[p])
-//@   ensures  sound: forall k int :: 0 <= k && k < len(result) ==> int(result[k]) < len(s.tables) && filterMatches(*filter, s.archetypes[s.tables[result[k]].archetype].mask) && tableMatchesSpec(&s.tables[result[k]], relations)
+//@   ensures  norel: forall a int :: 0 <= a && a < len(s.archetypes) && filterMatchesW(*filter, s.archetypes[a].mask) && s.archetypes[a].numRelations == 0 ==> inSlice(result, s.archetypes[a].tables.tables[0])
+//@   ensures  rel: forall a int, t tableID :: 0 <= a && a < len(s.archetypes) && filterMatchesW(*filter, s.archetypes[a].mask) && s.archetypes[a].numRelations > 0 && inGetTables(&s.archetypes[a], relations, t) && tableMatchesSpec(&s.tables[t], relations) ==> inSlice(result, t)
+//@   ensures  sound: forall k int :: 0 <= k && k < len(result) ==> int(result[k]) < len(s.tables) && filterMatchesW(*filter, s.archetypes[s.tables[result[k]].archetype].mask) && tableMatchesSpec(&s.tables[result[k]], relations)
 //@   modifies nothing
